@@ -171,6 +171,37 @@ variable {I : Interp} {p : Evm.Params} {S : Nat → Prop} {w0 : Evm.World}
 variable {cs : CState} {w : Evm.World} {f : Evm.Frame} {kcs : List CCont}
 variable {s : Simp} {cfg : Cfg} {codes : List (Nat × List Nat)}
 
+/-- the context of the callee: the symbolic environment `call_known` builds (msg.sender, address(this), msg.value,
+    calldata, static flag — per call kind) denotes the context of the frame the reference starts -/
+theorem calleeOf_envRel (hs : SimpSound s) {op t ao al ro rl : Nat} {rest : List HV} {prog : List Nat}
+    {g : Evm.Frame} (hRk : R I cs.env cs.code p { cs.st with stack := rest } g)
+    (hcall : op = 0xf1 ∨ op = 0xf2 ∨ op = 0xf4 ∨ op = 0xfa) (ht : t < 2 ^ 160) :
+    EnvRel I (calleeOf s cs op t ao al ro rl rest prog).env p (calleeFrame op g w t ao al) := by
+  have hargs : MemRel I (readMem cs.st.mem ao al) (Evm.readBytes g.mem ao al) := readMem_rel hRk.mem ao al
+  have haddr := hRk.env.address
+  have hcaller := hRk.env.caller
+  have hval := hRk.env.callvalue
+  simp only [calleeOf]
+  refine ⟨?_, hRk.env.origin, ?_, ?_, fun off => ?_, fun i => ?_, ?_, ?_⟩
+  · rcases hcall with rfl | rfl | rfl | rfl <;>
+      simp only [calleeFrame, Nat.reduceEqDiff, if_true, if_false] <;>
+      first | exact haddr | exact hcaller
+  · rcases hcall with rfl | rfl | rfl | rfl <;>
+      simp only [calleeFrame, Nat.reduceEqDiff, if_true, if_false] <;>
+      first | exact hval | exact ⟨(by decide : 0 < 256), Nat.le_refl _, rfl⟩
+  · have hlit : (T.lit 160 t).WF ∧ (T.lit 160 t).width ≤ 256 ∧ (T.lit 160 t).eval I = t :=
+      ⟨(by decide : 0 < 160), (by decide : 160 ≤ 256), Nat.mod_eq_of_lt ht⟩
+    rcases hcall with rfl | rfl | rfl | rfl <;>
+      simp [calleeFrame] <;>
+      first | exact hlit | exact haddr
+  · have hw := readMem_rel hargs off 32
+    obtain ⟨a1, a2, a3⟩ := wordOfBytes_rel (I := I) hs hw.1 (readMem_length _ _ _)
+    refine ⟨a1, a2, ?_⟩
+    rw [a3, hw.2]; rfl
+  · exact hargs.getD i
+  · simp [calleeFrame, Evm.readBytes]
+  · rcases hcall with rfl | rfl | rfl | rfl <;> simp [calleeFrame, hRk.env.isStatic]
+
 theorem callGo_corr (hs : SimpSound s) (hmem : cfg.maxMem + 32 ≤ p.memLimit) (hdep : 1024 ≤ p.maxDepth)
     (hcodes : ∀ a, w0.codeOf a = codeOf codes a) (hS : ∀ a prog, codeOf codes a = some prog → S a)
     (hcb : ∀ a prog, codeOf codes a = some prog → ∀ b ∈ prog, b < 256)
@@ -256,10 +287,8 @@ theorem callGo_corr (hs : SimpSound s) (hmem : cfg.maxMem + 32 ≤ p.memLimit) (
         · simp [calleeFrame]
       exact runStack_halt_cons hstop _ kcs r
   | some prog =>
-    simp only
+    simp only [calleeOf]
     refine Or.inr (Or.inr ⟨_, w, calleeFrame op f1t w t ao al, ⟨w, f1t, ro, rl⟩ :: kcs, rfl, rfl, ?_, hiff⟩)
-    have hargs : MemRel I (readMem cs.st.mem ao al) (Evm.readBytes f1t.mem ao al) := by
-      rw [e_mem]; exact readMem_rel hR.mem ao al
     have hstores : ∀ a, stoOf (stoSet cs.stores cs.this
         { storage := cs.st.storage, transient := cs.st.transient }) a = viewOf cs a := by
       intro a; rw [stoOf_stoSet]; rfl
@@ -270,29 +299,7 @@ theorem callGo_corr (hs : SimpSound s) (hmem : cfg.maxMem + 32 ≤ p.memLimit) (
       List.Forall₂.cons ⟨hRk, e_this.trans hrel.this, hrel.inS, e_depth.trans hrel.depth, hrel.hcode, rfl, rfl, hWs⟩
         hrel.conts⟩
     · simp [calleeFrame, hwcode, hc]
-    · -- the callee's environment
-      have haddr := hR.env.address
-      have hcaller := hR.env.caller
-      have hval := hR.env.callvalue
-      refine ⟨?_, hR.env.origin, ?_, ?_, fun off => ?_, fun i => ?_, ?_, ?_⟩
-      · rcases hcall with rfl | rfl | rfl | rfl <;>
-          simp only [calleeFrame, e_this, e_caller, Nat.reduceEqDiff, if_true, if_false] <;>
-          first | exact haddr | exact hcaller
-      · rcases hcall with rfl | rfl | rfl | rfl <;>
-          simp only [calleeFrame, e_value, Nat.reduceEqDiff, if_true, if_false] <;>
-          first | exact hval | exact ⟨(by decide : 0 < 256), Nat.le_refl _, rfl⟩
-      · have hlit : (T.lit 160 t).WF ∧ (T.lit 160 t).width ≤ 256 ∧ (T.lit 160 t).eval I = t :=
-          ⟨(by decide : 0 < 160), (by decide : 160 ≤ 256), Nat.mod_eq_of_lt ht⟩
-        rcases hcall with rfl | rfl | rfl | rfl <;>
-          simp [calleeFrame, e_this] <;>
-          first | exact hlit | exact haddr
-      · have hw := readMem_rel hargs off 32
-        obtain ⟨a1, a2, a3⟩ := wordOfBytes_rel (I := I) hs hw.1 (readMem_length _ _ _)
-        refine ⟨a1, a2, ?_⟩
-        rw [a3, hw.2]; rfl
-      · exact hargs.getD i
-      · simp [calleeFrame, Evm.readBytes]
-      · rcases hcall with rfl | rfl | rfl | rfl <;> simp [calleeFrame, e_static, hR.env.isStatic]
+    · simpa only [calleeOf] using calleeOf_envRel (w := w) (ao := ao) (al := al) (ro := ro) (rl := rl) (prog := prog) hs hRk hcall ht
     · -- this
       rcases hcall with rfl | rfl | rfl | rfl <;> simp [calleeFrame, e_this, hrel.this]
     · -- a modelled account
@@ -657,15 +664,18 @@ end
 
 /-! ### the shape of a call, relation-free -/
 
-/-- a call instruction ends the path in the state it was made in, or has one successor with the same path -/
+/-- a call instruction ends the path in the state it was made in, or has one successor with the same path — the same
+    frame one instruction later, or a callee on top of the suspended caller -/
 def CallShape (cs : CState) (lo : LocalOut) : Prop :=
-  (∃ e, lo = { ends := [e] } ∧ e.st = cs.st) ∨ (∃ cs', lo = { next := [cs'] } ∧ cs'.st.path = cs.st.path)
+  (∃ e, lo = { ends := [e] } ∧ e.st = cs.st) ∨
+  (∃ cs', lo = { next := [cs'] } ∧ cs'.st.path = cs.st.path ∧ (cs'.conts = cs.conts ∨ ∃ k, cs'.conts = k :: cs.conts))
 
 section
 variable {s : Simp} {cfg : Cfg} {codes : List (Nat × List Nat)} {cs : CState} {op t : Nat} {fundOk : Bool}
 
 macro "call_leaf" : tactic =>
-  `(tactic| first | exact Or.inl ⟨_, rfl, rfl⟩ | exact Or.inr ⟨_, rfl, rfl⟩)
+  `(tactic| first | exact Or.inl ⟨_, rfl, rfl⟩ | exact Or.inr ⟨_, rfl, rfl, Or.inl rfl⟩
+                  | exact Or.inr ⟨_, rfl, rfl, Or.inr ⟨_, rfl⟩⟩)
 
 theorem callGo_shape {ao al ro rl : Nat} {rest : List HV} :
     CallShape cs (callGo s cfg codes cs op t fundOk ao al ro rl rest) := by
@@ -702,7 +712,7 @@ theorem extOut_shape {s : Simp} {o : Oracle} {cfg : Cfg} {codes : List (Nat × L
   (repeat' split) <;>
     first
       | exact Or.inl (Or.inl ⟨_, rfl, rfl⟩)
-      | exact Or.inl (Or.inr ⟨_, rfl, rfl⟩)
+      | exact Or.inl (Or.inr ⟨_, rfl, rfl, Or.inl rfl⟩)
       | exact Or.inr ⟨_, rfl, Shape.copy⟩
 
 /-! ### one step of the frame-stack machine -/
@@ -748,7 +758,7 @@ theorem finish_paths {lo : LocalOut} (hn : ∀ cs' ∈ lo.next, ∃ ext, cs'.st.
 
 theorem callShape_paths {lo : LocalOut} (h : CallShape cs lo) :
     (∀ cs' ∈ lo.next, ∃ ext, cs'.st.path = cs.st.path ++ ext) ∧ (∀ e ∈ lo.ends, e.st.path = cs.st.path) := by
-  rcases h with ⟨e, rfl, he⟩ | ⟨cs1, rfl, hp⟩
+  rcases h with ⟨e, rfl, he⟩ | ⟨cs1, rfl, hp, _⟩
   · refine ⟨fun cs' hm => by simp at hm, fun e' hm => ?_⟩
     simp only [List.mem_singleton] at hm
     subst hm; rw [he]
@@ -779,6 +789,41 @@ theorem stepC_paths :
       · refine finish_paths (fun cs' hm => ?_) (fun e hm => stepL_end_path hm)
         obtain ⟨st', hm', rfl⟩ := mem_liftOut_next hm
         exact stepL_next_path hm'
+
+/-- the stack discipline of the suspended callers: a step keeps them, pushes one (a call) or pops one (a return);
+    it never touches a suspended caller — in particular not its snapshot -/
+theorem stepC_conts {cs' : CState} (h : cs' ∈ (stepC s o cfg codes cs).next) :
+    cs'.conts = cs.conts ∨ (∃ k, cs'.conts = k :: cs.conts) ∨ (∃ k, cs.conts = k :: cs'.conts) := by
+  have hfin : ∀ lo : LocalOut, (∀ c ∈ lo.next, c.conts = cs.conts ∨ ∃ k, c.conts = k :: cs.conts) →
+      cs' ∈ (finish cs lo).next →
+      cs'.conts = cs.conts ∨ (∃ k, cs'.conts = k :: cs.conts) ∨ (∃ k, cs.conts = k :: cs'.conts) := by
+    intro lo hn hm
+    rcases mem_finish_next hm with hm | ⟨e', _, k, ks, h', hc, _, _, rfl⟩
+    · rcases hn cs' hm with h1 | h1
+      · exact Or.inl h1
+      · exact Or.inr (Or.inl h1)
+    · exact Or.inr (Or.inr ⟨k, by rw [hc]; rfl⟩)
+  have hcall : ∀ lo : LocalOut, CallShape cs lo → ∀ c ∈ lo.next, c.conts = cs.conts ∨ ∃ k, c.conts = k :: cs.conts := by
+    intro lo hsh c hm
+    rcases hsh with ⟨e, rfl, _⟩ | ⟨cs1, rfl, _, hk⟩
+    · simp at hm
+    · simp only [List.mem_singleton] at hm
+      subst hm; exact hk
+  have hlift : ∀ out : StepOut, ∀ c ∈ (liftOut cs out).next, c.conts = cs.conts ∨ ∃ k, c.conts = k :: cs.conts := by
+    intro out c hm
+    obtain ⟨st', _, rfl⟩ := mem_liftOut_next hm
+    exact Or.inl rfl
+  rw [stepC_eq] at h
+  split at h
+  · exact hfin _ (hcall _ callOut_shape) h
+  · split at h
+    · exact hfin _ (hcall _ logOut_shape) h
+    · split at h
+      · rcases extOut_shape (s := s) (o := o) (cfg := cfg) (codes := codes) (cs := cs)
+          (op := opAt cs.code cs.st.pc) with hsh | ⟨out, e, _⟩
+        · exact hfin _ (hcall _ hsh) h
+        · rw [e] at h; exact hfin _ (hlift out) h
+      · exact hfin _ (hlift _) h
 
 theorem stepC_next_path {cs' : CState} (h : cs' ∈ (stepC s o cfg codes cs).next) :
     ∃ ext, cs'.st.path = cs.st.path ++ ext := stepC_paths.1 cs' h
